@@ -13,9 +13,17 @@ import (
 // without the removes whose target or an ancestor is absent at their turn
 // (decided by the reference as it walks the sequence) - the library against
 // itself - and both must agree with the reference.
+// c13Ref: C13's stated domain does not exclude empty reference tokens ("/a/" names the member
+// called ""), C01's does.
+func c13Ref(o V5Opts) ref.Opts {
+	r := o.Ref()
+	r.EmptyTokens = true
+	return r
+}
+
 func judgeAllowMissing(c *core.Ctx, sc *SeqCase, o V5Opts) {
 	o.AllowMissing = true
-	want := ref.Eval(sc.Doc, sc.Ops, o.Ref())
+	want := ref.Eval(sc.Doc, sc.Ops, c13Ref(o))
 	c.Eval(1)
 	if want.OutOfDom != "" {
 		c.Count("out_of_domain")
@@ -37,7 +45,7 @@ func judgeAllowMissing(c *core.Ctx, sc *SeqCase, o V5Opts) {
 	off := o
 	off.AllowMissing = false
 	// the reference must agree with itself first (harness sanity)
-	wantOff := ref.Eval(sc.Doc, pruned.Ops, off.Ref())
+	wantOff := ref.Eval(sc.Doc, pruned.Ops, c13Ref(off))
 	if (want.Doc == nil) != (wantOff.Doc == nil) || (want.Doc != nil && !jr.Equal(want.Doc, wantOff.Doc, jr.EqMode{Ordered: true})) {
 		c.Inconclusive("reference evaluator disagrees with itself on the pruned patch: " + sc.Canon())
 		return
@@ -115,7 +123,7 @@ func judgeAllowMissing(c *core.Ctx, sc *SeqCase, o V5Opts) {
 }
 
 func init() {
-	prof := gen.Hostile().With(func(p *gen.Profile) { p.Keys = c01Keys })
+	prof := gen.Hostile().With(func(p *gen.Profile) { p.Keys = append(append([]string{}, c01Keys...), "") })
 	n := func(q, t int) func(core.Tier) int {
 		return func(tier core.Tier) int {
 			if tier == core.Thorough {
@@ -155,7 +163,7 @@ func init() {
 				o := V5Opts{NegIdx: c.R.Intn(2) == 0, EscapeHTML: true}
 				cfg := &SeqCfg{Prof: prof, MinOps: 1, MaxOps: 10, MissRate: 35, RootOK: true, ContinueAfterFail: false,
 					Kinds: []string{"remove", "remove", "remove", "add", "move", "replace", "copy", "test"}}
-				or := o.Ref()
+				or := c13Ref(o)
 				or.AllowMissing = true
 				judgeAllowMissing(c, GenSeq(c.R, cfg, or), o)
 			}},
@@ -181,7 +189,7 @@ func init() {
 					o2 := V5Opts{NegIdx: on.NegIdx, EscapeHTML: true}
 					cfg := &SeqCfg{Prof: prof, MinOps: 1, MaxOps: 6, MissRate: 35, RootOK: true,
 						Kinds: []string{"remove", "remove", "remove", "add", "move", "replace", "copy", "test"}}
-					or := o2.Ref()
+					or := c13Ref(o2)
 					or.AllowMissing = true
 					judgeAllowMissing(c, GenSeq(c.R, cfg, or), o2)
 				}
@@ -190,7 +198,7 @@ func init() {
 			{Name: "mixed-sequences", Count: n(20000, 400000), Run: func(c *core.Ctx, idx int) {
 				o := V5Opts{NegIdx: c.R.Intn(2) == 0, EscapeHTML: c.R.Intn(2) == 0}
 				cfg := &SeqCfg{Prof: prof, MinOps: 2, MaxOps: 12, MissRate: 20, RootOK: true, ContinueAfterFail: true}
-				or := o.Ref()
+				or := c13Ref(o)
 				or.AllowMissing = true
 				judgeAllowMissing(c, GenSeq(c.R, cfg, or), o)
 			}},
